@@ -276,15 +276,23 @@ func ruleEncoderContract(r *core.Run, p *core.Prog, rel string) {
 			return true
 		})
 		// what is written: data itself (null), library-length prefix of buf, or the library's returned slice
-		var wcall *ast.CallExpr
+		var wcalls []*ast.CallExpr
 		for _, c := range core.Calls(f.Decl.Body, false) {
 			if rx, m := core.MethodCall(info, c); m == "Write" && rx != nil && core.ObjOf(info, rx) == pDst {
-				wcall = c
+				wcalls = append(wcalls, c)
 			}
 		}
-		if wcall == nil {
+		if len(wcalls) == 0 {
 			r.Undecided(rule, short+".Compress:written-bytes", where, "no dst.Write call")
-		} else {
+		}
+		libCall := func(d ast.Expr) bool {
+			c, ok := stripConv(info, d).(*ast.CallExpr)
+			if !ok {
+				return false
+			}
+			return !strings.HasPrefix(core.CallName(info, c), "builtin.")
+		}
+		for wi, wcall := range wcalls {
 			arg := ast.Unparen(wcall.Args[0])
 			okW, why := false, "dst.Write("+core.Str(arg)+")"
 			switch a := arg.(type) {
@@ -303,18 +311,14 @@ func ruleEncoderContract(r *core.Run, p *core.Prog, rel string) {
 			case *ast.SliceExpr:
 				if core.ObjOf(info, a.X) == pBuf && a.Low == nil && a.High != nil {
 					if o := core.ObjOf(info, a.High); o != nil {
-						if d := singleDef(info, f.Decl.Body, o); d != nil {
-							if _, isCall := stripConv(info, d).(*ast.CallExpr); isCall {
-								okW = true // the library-reported length
-							}
+						if d := singleDef(info, f.Decl.Body, o); d != nil && libCall(d) {
+							okW = true // the library-reported length
 						}
 						// multi-value definition: compLen, err := lib(...)
 						if !okW {
 							core.Walk(f.Decl.Body, false, func(x ast.Node) bool {
-								if as, ok := x.(*ast.AssignStmt); ok && len(as.Rhs) == 1 && len(as.Lhs) == 2 && core.ObjOf(info, as.Lhs[0]) == o {
-									if _, isCall := as.Rhs[0].(*ast.CallExpr); isCall {
-										okW = true
-									}
+								if as, ok := x.(*ast.AssignStmt); ok && len(as.Rhs) == 1 && len(as.Lhs) == 2 && core.ObjOf(info, as.Lhs[0]) == o && libCall(as.Rhs[0]) {
+									okW = true
 								}
 								return true
 							})
@@ -322,7 +326,7 @@ func ruleEncoderContract(r *core.Run, p *core.Prog, rel string) {
 					}
 				}
 			}
-			r.Check(rule, short+".Compress:writes-exactly-the-library-output", p.Rel(wcall.Pos()), okW, why+" — must be the library's returned slice, or buf[:n] with n the library-reported length")
+			r.Check(rule, fmt.Sprintf("%s.Compress:write#%d-is-exactly-the-library-output", short, wi+1), p.Rel(wcall.Pos()), okW, why+" — what reaches the file must be the codec library's returned slice, or buf[:n] with n the length reported by the codec library; a hand-built frame is readable only by coincidence")
 		}
 	}
 	// ---------------- Decompress ----------------
